@@ -40,7 +40,8 @@ class HeapEngine(HeapOps):
     # ------------------------------------------------------------------ contracts at call sites
     def call_repo_function(self, fi, args, kw, st, node):
         c = self.contracts.get(fi.fid)
-        if c is not None and not c.transparent and not getattr(c, 'inline', True):
+        if c is not None and not c.transparent and (not getattr(c, 'inline', True) or not hasattr(c, 'types')):
+            # contracts without `types` are value-only (pure mode) contracts: always applied modularly
             return self.apply_contract(fi, c, args, kw, st, node)
         if self.depth > self.max_inline_depth + 4:
             raise Unsupported('inline depth exceeded calling %s (line %s)' % (fi.fid, node.lineno))
@@ -50,7 +51,7 @@ class HeapEngine(HeapOps):
     def apply_contract(self, fi, c, args, kw, st, node):
         """Modular call: assert requires, branch into the raises clauses, assume ensures.
         Only for callees whose contract says they do not modify the heap (`pure=True`)."""
-        if not getattr(c, 'pure', False):
+        if not getattr(c, 'pure', False) and hasattr(c, 'types'):
             raise Unsupported('contract application for heap-modifying callee %s' % fi.fid)
         params = fi.params
         if len(args) != len(params) or kw:
@@ -107,6 +108,108 @@ class HeapEngine(HeapOps):
         if env_extra is not None:
             o.env = dict(env_extra)
         return super().eval_spec(src_or_node, o, None)
+
+    # ------------------------------------------------------------------ module-level values
+    def resolve_module_value(self, mod, name):
+        """Value of a module-level name: constant, Enum class, or a singleton instance
+        (format.Section = Section())."""
+        if name in mod.constants:
+            node = mod.constants[name]
+            if isinstance(node, ast.Call) and isinstance(node.func, ast.Name) and not node.args \
+                    and node.func.id in mod.classes:
+                return self.static_instance(mod.classes[node.func.id])
+            try:
+                return self.const_value(node, mod)
+            except Unsupported:
+                return None
+        if name in mod.classes:
+            ci = mod.classes[name]
+            if ci.name in self.class_ids or ci.name in ('IssueID', 'DType'):
+                return VCls(intlit(self.cid(ci.name)))
+        return None
+
+    def static_instance(self, ci):
+        key = 'static_%s' % ci.name
+        c = const(key, INT)
+        v = VRef(c)
+        self._static = getattr(self, '_static', {})
+        self._static[v] = ci.name
+        return v
+
+    def classes_of_static(self, v):
+        return getattr(self, '_static', {}).get(v)
+
+    def module_attr(self, e, st):
+        """<module alias>.<name> and <Enum class>.<member> as values."""
+        if not isinstance(e.value, ast.Name) or e.value.id in st.env:
+            # validation.IssueID.member
+            if isinstance(e.value, ast.Attribute) and isinstance(e.value.value, ast.Name) \
+                    and e.value.value.id not in st.env:
+                inner = self._enum_class(e.value.value.id, e.value.attr)
+                if inner is not None:
+                    return self.enum_member(inner, e.attr)
+            return None
+        fi = self.cur_func[-1] if self.cur_func else None
+        if fi is None:
+            return None
+        mod = fi.module
+        base = e.value.id
+        if base in mod.classes and self._is_enum(mod.classes[base]):
+            return self.enum_member(mod.classes[base], e.attr)
+        imp = mod.imports.get(base)
+        if imp is None:
+            return None
+        if imp[0] == 'from':
+            tgt = self.find_module(imp[1] + imp[2] if imp[1].endswith('.') else imp[1] + '.' + imp[2], mod)
+            if tgt is None:
+                # from x import Class  (Enum class imported by name)
+                m2 = self.find_module(imp[1], mod)
+                if m2 is not None and imp[2] in m2.classes and self._is_enum(m2.classes[imp[2]]):
+                    return self.enum_member(m2.classes[imp[2]], e.attr)
+                return None
+        else:
+            tgt = self.find_module(imp[1], mod)
+        if tgt is None:
+            return None
+        if e.attr in tgt.functions or (e.attr in tgt.classes and not self._is_enum(tgt.classes[e.attr])
+                                       and e.attr not in tgt.constants):
+            return None       # callables are resolved by the call dispatcher
+        return self.resolve_module_value(tgt, e.attr)
+
+    def _enum_class(self, modalias, clsname):
+        fi = self.cur_func[-1] if self.cur_func else None
+        if fi is None:
+            return None
+        imp = fi.module.imports.get(modalias)
+        if imp is None:
+            return None
+        tgt = self.find_module(imp[1] + imp[2] if imp[1].endswith('.') else imp[1] + '.' + imp[2], fi.module) \
+            if imp[0] == 'from' else self.find_module(imp[1], fi.module)
+        if tgt is not None and clsname in tgt.classes and self._is_enum(tgt.classes[clsname]):
+            return tgt.classes[clsname]
+        return None
+
+    @staticmethod
+    def _is_enum(ci):
+        return 'Enum' in ci.builtin_bases()
+
+    def enum_member(self, ci, member):
+        if member not in ci.attrs:
+            return None
+        return tm.Ctor('VOpq', const('enum_%s_%s' % (ci.name, member), INT))
+
+    def global_name(self, n, st):
+        v = super().global_name(n, st)
+        if v is not None:
+            return v
+        fi = self.cur_func[-1] if self.cur_func else None
+        if fi is not None:
+            imp = fi.module.imports.get(n)
+            if imp is not None and imp[0] == 'from':
+                tgt = self.find_module(imp[1], fi.module)
+                if tgt is not None:
+                    return self.resolve_module_value(tgt, imp[2])
+        return None
 
     # ------------------------------------------------------------------ uuid / external library axioms
     def external_call(self, imp, attr):
